@@ -735,9 +735,14 @@ class BzrBranch8(BzrBranch):
         if _mod_revision.is_null(last_revision):
             return
         graph = self.repository.get_graph()
-        for lh_ancestor in graph.iter_lefthand_ancestry(revision_id):
-            if lh_ancestor == last_revision:
-                return
+        try:
+            for lh_ancestor in graph.iter_lefthand_ancestry(revision_id):
+                if lh_ancestor == last_revision:
+                    return
+        except vcsgraph.errors.RevisionNotPresent:
+            # The left-hand history ends in a ghost without having reached
+            # the current tip: the tip is not in it.
+            pass
         raise errors.AppendRevisionsOnlyViolation(self.user_url)
 
     def _gen_revision_history(self):
